@@ -40,11 +40,11 @@ def rootclass(root):
     return "struct"
 
 
-def compare_strict(root, b, cc=None, enc=None, ref=None):
+def compare_strict(root, b, cc=None, enc=None, ref=None, root_path=None):
     """-> (ref, run, problems); problems: list of dict(clause=..., detail=..., **fingerprint extras)"""
     if ref is None:
         ref = ref_decode(root, b, cc=cc, enc=enc)
-    r = impl.run(root, b, cc=cc, enc=enc, strict=True)
+    r = impl.run(root, b, cc=cc, enc=enc, strict=True, root_path=root_path)
     probs = []
     rk = ref.kind
     if (r.kind.startswith("ESCAPE") or r.kind == "GUARD") and rk in OUTSIDE:
